@@ -45,6 +45,18 @@ def run(ctx: Ctx) -> None:
         if any(isinstance(n, ast.Call) and isinstance(n.func, ast.Attribute) and n.func.attr in ("discard", "remove") for n in own_nodes(m.node)) and any(isinstance(n, ast.Attribute) and n.attr == roles.handler_table for n in own_nodes(m.node)):
             unreg = m
     ctx.require(unreg is not None, "handler removal function not found")
+    # what the package registers as a message handler never completes a future unconditionally: a bound
+    # `fut.set_result` / `set_exception` raises InvalidStateError on the second matching message, inside the delivery
+    # loop (the other subscribers of that message and the frames behind it are skipped, the connection is torn down)
+    raw = []
+    for f_ in ctx.repo.all_funcs():
+        aliases = {t.id: x.value for x in own_nodes(f_.node) if isinstance(x, ast.Assign) and isinstance(x.value, ast.Attribute) and x.value.attr in ("set_result", "set_exception") for t in x.targets if isinstance(t, ast.Name)}
+        for c in own_nodes(f_.node):
+            if isinstance(c, ast.Call) and isinstance(c.func, ast.Attribute) and c.func.attr in ("_add_message_callback_without_remove", "add_message_callback", "send_message_callback_response") and c.args:
+                for a in c.args:
+                    if (isinstance(a, ast.Attribute) and a.attr in ("set_result", "set_exception")) or (isinstance(a, ast.Name) and a.id in aliases):
+                        raw.append(f"{f_.qualname} L{c.lineno}: {norm(a)}")
+    ctx.ob("C11.R3", "connection:APIConnection", "no bare future completion is registered as a message handler", not raw, f"{raw[:3]}")
     ctx.analysed["roles"] = {"register": reg_base.key, "unregister": unreg.key}
 
     def calls_to(fn: Func, targets: set[str], n: Node) -> list[ast.Call]:
